@@ -16,12 +16,13 @@ Inductive tspec :=
 | OrS (sid : nat) (branches : list tspec)           (* Or: the last branch's error propagates *)
 | Switch (sid : nat) (cases : list (tspec * tspec))
 | Guard (sid : nat) (ok : bool) (kid : tspec)
-| AltD (sid : nat) (branches : list tspec).      (* Guard: Check(kid, ...): the sub-spec runs in a scope of its own, then the guard passes
+| AltD (sid : nat) (branches : list tspec)
+| NotS (sid : nat) (kid : tspec).                  (* Not(kid): a failure of the sub-spec is recovered from (the target passes), a success is refused with the Not's OWN error *)      (* Guard: Check(kid, ...): the sub-spec runs in a scope of its own, then the guard passes
                                                         the target on or raises its OWN error — a spec that fails after its children succeeded *)
 
 (* AltD: Coalesce(..., default_factory=f) — when every alternative fails or is skipped the factory's value is the result, and nothing
    is evaluated after the last (failed) alternative: a spec that recovers *)
-Definition sid_of s := match s with Leaf n _ | SkipLeaf n | Nest n _ | Chain n _ | Alt n _ | OrS n _ | Switch n _ | Guard n _ _ | AltD n _ => n end.
+Definition sid_of s := match s with Leaf n _ | SkipLeaf n | Nest n _ | Chain n _ | Alt n _ | OrS n _ | Switch n _ | Guard n _ _ | AltD n _ | NotS n _ => n end.
 
 Record frame := mkF { f_spec : nat; f_target : nat; f_up : nat; f_last : option nat;
                       f_cerrs : list nat; f_err : option nat; f_nopy : bool }.
@@ -96,6 +97,9 @@ Fixpoint glom_ (fuel : nat) (st : store) (parent t : nat) (s : tspec) {struct fu
     | AltD n bs => match alt_loop (glom_ fuel) 0 st f t bs with
                    | (st, Exc _) => (st, Ret (3000 + n))
                    | (st, Ret v) => (st, Ret v) end
+    | NotS n kid => match glom_ fuel st f t kid with
+                    | (st, Ret _) => (st, Exc (6000 + n))
+                    | (st, Exc _) => (st, Ret t) end
     end in
   match r with
   | Ret v => (st, Ret v)
@@ -145,7 +149,8 @@ Fixpoint tdepth (s : tspec) : nat :=
   | Nest _ l | Chain _ l | Alt _ l | OrS _ l => S (fold_right (fun x acc => Nat.max (tdepth x) acc) 0 l)
   | Switch _ cs => S (fold_right (fun kv acc => let '(k, v) := kv in Nat.max (Nat.max (tdepth k) (tdepth v)) acc) 0 cs)
   | Guard _ _ k => S (tdepth k)
-  | AltD _ l => S (fold_right (fun x acc => Nat.max (tdepth x) acc) 0 l) end.
+  | AltD _ l => S (fold_right (fun x acc => Nat.max (tdepth x) acc) 0 l)
+  | NotS _ k => S (tdepth k) end.
 
 Definition root_store : store := [dummy].
 Definition root_target : nat := 7.
